@@ -56,12 +56,48 @@ def late(a):
 def pipeline(x):
     bump = lambda v: v + 1  # noqa: E731 - a lambda held in a local of a frame on the stack: findable, hence recorded when accepted
     return bump(x)
+
+
+def plain_deco(f):
+    def w(*a, **k):  # a decorator that does NOT use functools.wraps: the decorated function is reachable through w's closure only
+        return f(*a, **k)
+    return w
+
+
+@plain_deco
+def hidden(a):
+    return {'h': a}
+
+
+class K2:
+    @plain_deco
+    def hm(self, a):
+        return a
+
+
+def make_counter():
+    def count(n):  # refers to itself; after make_counter returned, only its own closure cell (and HANDLERS) lead to it
+        return 0 if n <= 0 else 1 + count(n - 1)
+    return count
+
+
+HANDLERS = {'count': make_counter()}
+
+
+def dispatch(name, arg):
+    return HANDLERS[name](arg)
 '''
 CALLS = {
     "f0": "M.f0(1)", "f1": "M.f1('s')", "f2": "M.f2({'a': 1, 'b': 2, 'c': 3})", "f3": "M.f3(4)", "K.m0": "M.K().m0(1)", "K.s0": "M.K.s0({'u': 1, 'v': 's'})",
     "K.c0": "list(M.K.c0(1))", "g0": "list(M.g0(2))", "late": "M.late(1)", "pipeline": "M.pipeline(1)",
+    "hidden": "M.hidden(1)", "K2.hm": "M.K2().hm('s')", "dispatch": "M.dispatch('count', 2)",
 }
 LAMBDA = "pipeline.<locals>.<lambda>"
+WRAPPER = "plain_deco.<locals>.w"
+HIDDEN, HM, COUNT = "hidden", "K2.hm", "make_counter.<locals>.count"
+# what runs (beyond the called name itself) when a CALLS entry is evaluated; "hidden" / "K2.hm" name the wrapper at module level, the
+# decorated function keeps its own qualified name
+ALSO_RUNS = {"pipeline": [LAMBDA], "hidden": [WRAPPER, "hidden:inner"], "K2.hm": [WRAPPER, "K2.hm:inner"], "dispatch": [COUNT]}
 KS = [10, 3, 0, 2, 1, 0, 3, 10, 2]
 
 
@@ -138,6 +174,11 @@ def work(p):
                 return state.get("rate")
 
         lam_code = next(c for c in M.pipeline.__code__.co_consts if hasattr(c, "co_code"))
+        special = {LAMBDA: lam_code, WRAPPER: M.hidden.__code__, "hidden:inner": M.hidden.__closure__[0].cell_contents.__code__,
+                   "K2.hm:inner": M.K2.__dict__["hm"].__closure__[0].cell_contents.__code__, COUNT: M.HANDLERS["count"].__code__}
+        # qualified name under which a trace of that code is logged
+        logged_as = {LAMBDA: LAMBDA, WRAPPER: WRAPPER, "hidden:inner": "hidden", "K2.hm:inner": "K2.hm", COUNT: COUNT}
+        plain = [q for q in quals if q not in ("hidden", "K2.hm")]  # (these two names are bound to the wrapper)
         for mode in case["modes"]:
             lg = L()
             cfg = Cfg(lg)
@@ -147,16 +188,16 @@ def work(p):
             # later it is an ordinary module function again
             holder = [M.late]
             for b in range(nblocks):
-                universe = quals + [LAMBDA]
+                universe = plain + sorted(special)
                 accepted = set(rng.sample(universe, rng.randint(0, len(universe))))
                 if b == 1 and rng.random() < 0.5:
                     accepted = None  # a block without any filter
                 called = rng.sample(quals, rng.randint(1, len(quals)))
                 k = KS[(b + case.get("koff", 0)) % len(KS)]
                 rate = [None, None, 3, None, 50, 1, None][(b + case.get("koff", 0)) % 7] if case.get("rates") else None
-                codes = {q: eval("M." + q, {"M": M}) for q in quals}  # noqa: S307
+                codes = {q: eval("M." + q, {"M": M}) for q in plain}  # noqa: S307
                 codes = {q: getattr(getattr(v, "__func__", v), "__code__") for q, v in codes.items()}
-                codes[LAMBDA] = lam_code
+                codes.update(special)
                 acc_codes = None if accepted is None else {codes[q] for q in accepted}
 
                 def flt(code, acc_codes=acc_codes):
@@ -197,8 +238,14 @@ def work(p):
                     r_.count("session_blocks")
                 got = [t for bb, t in lg.logged if bb == b and getattr(t.func, "__module__", None) == name]
                 gotq = sorted({t.func.__qualname__ for t in got})
-                eff = set(called) | ({LAMBDA} if "pipeline" in called else set())
-                want = sorted(eff if accepted is None else eff & accepted)
+                eff = {q for q in called if q in plain} | {x for q in called for x in ALSO_RUNS.get(q, ())}
+                want = sorted({logged_as.get(x, x) for x in (eff if accepted is None else eff & accepted)})
+                # the wrapper function itself is bound to other names (`hidden`, `K2.hm`): findable through a receiver or a caller's
+                # local in some calls only - a trace is allowed, not due
+                if WRAPPER in want:
+                    want.remove(WRAPPER)
+                if accepted is None or WRAPPER in accepted:
+                    gotq = [q for q in gotq if q != WRAPPER]
                 if b == 0 and "late" in want:
                     want.remove("late")  # not findable by name during block 0: a trace is allowed, not due
                     gotq = [q for q in gotq if q != "late"]
@@ -224,6 +271,10 @@ def work(p):
                         res02.count("late_bound_function_judgements")
                     if LAMBDA in want:
                         res17.count("lambda_in_caller_local_judgements")
+                    if "hidden" in want or "K2.hm" in want:
+                        res17.count("function_behind_plain_closure_decorator_judgements")
+                    if COUNT in want:
+                        res17.count("self_referential_nested_function_judgements")
                 else:
                     res18.count("session_blocks_sampled")
                     extra = sorted(set(gotq) - set(want))
